@@ -45,19 +45,21 @@ def family(tier):
         combos = [(False, 3, 3, 1), (False, 2, 2, 1), (True, 3, 3, 1), (False, 3, 1, 0), (True, 2, 4, 1),
                   # eager dances continued past the end of the list (L + 2 taps in succession), L = 1, 2
                   (True, 3, 2, 1), (True, 2, 1, 0)]
-        pairs = [((True, 3, 2), (True, 3, 2), 1, False), ((True, 2, 2), (False, 2, 2), 1, False),
-                 ((False, 2, 2), (False, 2, 1), 0, False)]
+        # (first key, second key, rapid-event-delay, plain third key, queue bound)
+        pairs = [((True, 3, 2), (True, 3, 2), 1, False, 3), ((True, 3, 2), (False, 2, 2), 1, False, 2),
+                 ((False, 2, 2), (False, 2, 1), 0, False, 2)]
     else:
         combos = [(e, T, n, r) for e in (False, True) for T in (2, 3) for n in (1, 2, 3, 4) for r in (0, 1)] + \
                  [(False, 4, 3, 5), (True, 4, 3, 5)]
-        pairs = [((True, 3, 2), (True, 3, 2), 1, False), ((True, 2, 2), (False, 2, 2), 1, False),
-                 ((False, 2, 2), (False, 2, 1), 0, False),
-                 ((True, 3, 3), (True, 2, 2), 0, False), ((True, 3, 2), (True, 3, 3), 1, True),
-                 ((True, 3, 3), (False, 3, 2), 0, False), ((False, 3, 2), (True, 2, 3), 1, False),
-                 ((False, 2, 2), (False, 3, 2), 1, False)]
-    fam = [("%s_T%d_n%d_r%d" % (form(e), T, n, r), make(e, T, n, r)) for (e, T, n, r) in combos]
-    fam += [("two_%s_T%d_n%d_%s_T%d_n%d_r%d%s" % (form(A[0]), A[1], A[2], form(B[0]), B[1], B[2], r, "_c" if pl else ""),
-             make2(A, B, r, pl)) for (A, B, r, pl) in pairs]
+        pairs = [((True, 3, 2), (True, 3, 2), 1, False, 3), ((True, 3, 2), (False, 2, 2), 1, False, 3),
+                 ((False, 2, 2), (False, 2, 1), 0, False, 3),
+                 ((True, 3, 3), (True, 2, 2), 0, False, 3), ((True, 3, 2), (True, 3, 3), 1, True, 2),
+                 ((True, 3, 3), (False, 3, 2), 0, False, 2), ((False, 3, 2), (True, 3, 3), 1, False, 2),
+                 ((False, 2, 2), (False, 3, 2), 1, False, 2)]
+    fam = [("%s_T%d_n%d_r%d" % (form(e), T, n, r), make(e, T, n, r), 3) for (e, T, n, r) in combos]
+    fam += [("two_%s_T%d_n%d_%s_T%d_n%d_r%d%s%s" % (form(A[0]), A[1], A[2], form(B[0]), B[1], B[2], r, "_c" if pl else "",
+                                                   "" if q == 3 else "_q%d" % q),
+             make2(A, B, r, pl), q) for (A, B, r, pl, q) in pairs]
     return fam
 
 
@@ -80,10 +82,10 @@ def run(tier, seed):
     wd = workdir("c17")
     jobs_random, witness_jobs, cover_jobs = [], [], []
     n_cover = 0
-    for name, (desc, params) in family(tier):
+    for name, (desc, params), qmax in family(tier):
         kbd = cfgdesc.render_kbd(desc)
         keys = [cfgdesc.code(k) for k in desc["keys"]]
-        inst = {"name": "c17_" + name, "kbd": kbd, "keys": keys, "qmax": 3,
+        inst = {"name": "c17_" + name, "kbd": kbd, "keys": keys, "qmax": qmax,
                 "monitor": {"module": "P_C17", "params": params},
                 # histories that pile up more unconsumed taps of a key than its list length + 1 are not expanded
                 # further (a swallowed tap stays unconsumed for ever; the monitor flags it at the next idle point).
